@@ -12,9 +12,11 @@
 from __future__ import annotations
 
 import ast
+import itertools
 
 from .. import core
 from ..pymodel import pmatch, find_match
+from ..tmodel import f_atoms, f_eval
 from ..skq import D, Dn, Lib, M, pm, calls, own_body_walk
 from .clientmodel import client_methods, CM
 
@@ -150,6 +152,40 @@ def check_client(report, lib: Lib, is_async: bool):
             r3.check(value == NAME, *cm.where(node), f"{kind} of {value}", f"the value applied must be the parameter {NAME} paired with key {KEYH}")
             if kind == "ctor":
                 continue
+            # the template guards of the statement must ENTAIL a field shape this kind of application is valid for (truth-table over
+            # the atoms of the guards; `!=`/`==` on the packages are complementary; every map field is also repeated)
+            rep_a, map_a = "ELEM(" + FF + ".values()).repeated", "ELEM(" + FF + ".values()).map"
+            same_a = f"{M}.input.ident.package == {M}.ident.package"
+            diff_a = f"{M}.input.ident.package != {M}.ident.package"
+            guards = sk.guards_of_node(node)
+            atoms = set()
+            for g in guards:
+                f_atoms(g, atoms)
+            atoms |= {rep_a, map_a, same_a, diff_a}
+            atoms = sorted(atoms)
+            counter = None
+            if len(atoms) <= 14:
+                for bits in itertools.product((False, True), repeat=len(atoms)):
+                    env = dict(zip(atoms, bits))
+                    if env[same_a] == env[diff_a] or (env[map_a] and not env[rep_a]):
+                        continue
+                    for a_ in atoms:
+                        if a_.startswith("LOOP:"):
+                            env[a_] = True
+                    if not all(f_eval(g, env) for g in guards):
+                        continue
+                    value_elem = any("struct_pb2.Value" in a_ and v for a_, v in env.items())
+                    ok_shape = {"assign": (not env[rep_a]) or env[same_a],      # proto-plus wrappers accept assignment of lists and dicts
+                                "extend": env[rep_a] and (not env[map_a] or value_elem),
+                                "update": env[map_a]}[kind]
+                    if not ok_shape:
+                        counter = {a_.rsplit(".", 1)[-1][:44]: v for a_, v in env.items() if a_ in (rep_a, map_a, same_a)}
+                        break
+            why = {"assign": "singular fields, or any field of a proto-plus request (request in the API's own package)",
+                   "extend": "repeated fields that are not maps (a map container has no extend(); every map field is also `repeated`)",
+                   "update": "map fields"}[kind]
+            r3.check(counter is None, *cm.where(node), f"{kind} of a flattened field reachable with {counter}",
+                     f"`{kind}` is only valid for {why}; the template guards of this statement admit a field shape for which it is not")
             # enclosing guard
             parent = None
             for s in ast.walk(cm.fn):
